@@ -21,7 +21,9 @@ Open Scope Z_scope.
 (* ------------------------------------------------------------------------------------ *)
 (* values                                                                                *)
 
-Inductive exn := IndexError | TypeError | ValueError | AttributeError | KeyError | ExcOther.
+(* ExcUser: an exception class of pygls (by name); ExcAny only occurs in handlers: `except Exception` *)
+Inductive exn := IndexError | TypeError | ValueError | AttributeError | KeyError | ExcOther
+               | ExcUser (name : string) | ExcAny.
 
 Inductive val :=
 | VInt (z : Z)
@@ -149,6 +151,13 @@ Fixpoint dict_upd (k v : val) (items : list val) : list val :=
   end.
 Definition dict_set (k v : val) (items : list val) : list val :=
   if dict_mem k items then dict_upd k v items else (items ++ [VTuple [k; v]])%list.
+(* d.pop(k, default) without the value: every entry with that key goes (a dict has at most one) *)
+Fixpoint dict_del (k : val) (items : list val) : list val :=
+  match items with
+  | [] => []
+  | VTuple [k'; v] :: r => if py_eq k' k then dict_del k r else VTuple [k'; v] :: dict_del k r
+  | x :: r => x :: dict_del k r
+  end.
 Definition mk_dict (items : list val) : val := VObj "dict" [("items", VList items)].
 Definition dict_items (v : val) : option (list val) :=
   match v with
@@ -223,6 +232,10 @@ Definition py_subscript (v i : val) : res val :=
     | Some k => Ok (VStr [nth (N.to_nat k) s 0%N])
     | None => Raise IndexError
     end
+  | VObj cls [(f, VList items)], k =>
+    if String.eqb cls "dict" && String.eqb f "items" then
+      match dict_get k items with Some x => Ok x | None => Raise KeyError end
+    else Stuck "subscript operands"
   | _, _ => Stuck "subscript operands"
   end.
 
@@ -268,6 +281,15 @@ Definition s_utf8 : list N := [117; 116; 102; 45; 56]%N.           (* "utf-8"  *
 Definition s_utf16 : list N := [117; 116; 102; 45; 49; 54]%N.      (* "utf-16" *)
 Definition s_utf32 : list N := [117; 116; 102; 45; 51; 50]%N.      (* "utf-32" *)
 
+(* pygls.constants *)
+Definition c_execute_in_thread : list N :=
+  [101; 120; 101; 99; 117; 116; 101; 95; 105; 110; 95; 116; 104; 114; 101; 97; 100]%N.    (* "execute_in_thread" *)
+Definition c_command : list N := [99; 111; 109; 109; 97; 110; 100]%N.                      (* "command" *)
+Definition c_feature : list N := [102; 101; 97; 116; 117; 114; 101]%N.                     (* "feature" *)
+Definition c_reg_name : list N := [114; 101; 103; 95; 110; 97; 109; 101]%N.                (* "reg_name" *)
+Definition c_reg_type : list N := [114; 101; 103; 95; 116; 121; 112; 101]%N.               (* "reg_type" *)
+Definition c_ls : list N := [108; 115]%N.                                                  (* "ls" *)
+
 Definition s_progress : list N := [36; 47; 112; 114; 111; 103; 114; 101; 115; 115]%N.        (* "$/progress" *)
 Definition s_progress_create : list N :=                       (* "window/workDoneProgress/create" *)
   [119; 105; 110; 100; 111; 119; 47; 119; 111; 114; 107; 68; 111; 110; 101; 80; 114; 111; 103; 114; 101; 115; 115;
@@ -278,6 +300,12 @@ Definition global_const (p : list string) : option val :=
   else if path_eqb p ["types"; "PositionEncodingKind"; "Utf16"] then Some (VStr s_utf16)
   else if path_eqb p ["types"; "PositionEncodingKind"; "Utf32"] then Some (VStr s_utf32)
   else if path_eqb p ["IS_WIN"] then Some (VBool false)      (* POSIX; the Windows branch is not covered *)
+  else if path_eqb p ["ATTR_EXECUTE_IN_THREAD"] then Some (VStr c_execute_in_thread)
+  else if path_eqb p ["ATTR_COMMAND_TYPE"] then Some (VStr c_command)
+  else if path_eqb p ["ATTR_FEATURE_TYPE"] then Some (VStr c_feature)
+  else if path_eqb p ["ATTR_REGISTERED_NAME"] then Some (VStr c_reg_name)
+  else if path_eqb p ["ATTR_REGISTERED_TYPE"] then Some (VStr c_reg_type)
+  else if path_eqb p ["PARAM_LS"] then Some (VStr c_ls)
   else if path_eqb p ["PROGRESS"] then Some (VStr s_progress)
   else if path_eqb p ["WINDOW_WORK_DONE_PROGRESS_CREATE"] then Some (VStr s_progress_create)
   else None.
@@ -291,6 +319,9 @@ Definition ctor_table (p : list string) : option (string * list string) :=
   else if path_eqb p ["ProgressParams"] then Some ("ProgressParams", ["token"; "value"])
   else if path_eqb p ["WorkDoneProgressCreateParams"] then Some ("WorkDoneProgressCreateParams", ["token"])
   else if path_eqb p ["Future"] then Some ("Future", [])      (* a new pending future; identity is not modelled *)
+  else if path_eqb p ["TextDocument"] then
+    Some ("TextDocument", ["uri"; "source"; "version"; "language_id"; "local"; "sync_kind"; "position_codec"])
+  else if path_eqb p ["PositionCodec"] then Some ("PositionCodec", ["encoding"])
   else None.
 
 Definition py_getattr (v : val) (a : string) : res val :=
@@ -354,6 +385,19 @@ Definition is_prefix1 (c : N) (s : list N) : bool :=
 (* str.lower() on one character: only the ASCII case is given a meaning *)
 Definition lower1 (c : N) : N := if (65 <=? c)%N && (c <=? 90)%N then (c + 32)%N else c.
 
+(* str.strip() without arguments: str.isspace of one character (CPython: _Py_ascii_whitespace and
+   _PyUnicode_IsWhitespace), from both ends - the same definitions as in Model/Features.v *)
+Definition py_isspace (c : N) : bool :=
+  (((9 <=? c) && (c <=? 13)) || ((28 <=? c) && (c <=? 32)) || (c =? 133) || (c =? 160)
+   || (c =? 5760) || ((8192 <=? c) && (c <=? 8202)) || (c =? 8232) || (c =? 8233)
+   || (c =? 8239) || (c =? 8287) || (c =? 12288))%N.
+Fixpoint py_lstrip (s : list N) : list N :=
+  match s with
+  | [] => []
+  | c :: r => if py_isspace c then py_lstrip r else s
+  end.
+Definition py_strip (s : list N) : list N := rev (py_lstrip (rev (py_lstrip s))).
+
 Definition str_method (m : string) (s : list N) (args : list val) : res val :=
   if String.eqb m "replace" then
     match args with
@@ -381,6 +425,11 @@ Definition str_method (m : string) (s : list N) (args : list val) : res val :=
     match args, s with
     | [], [c] => if (c <? 128)%N then Ok (VStr [lower1 c]) else Stuck "str.lower: non-ASCII"
     | _, _ => Stuck "str.lower: only on one character"
+    end
+  else if String.eqb m "strip" then
+    match args with
+    | [] => Ok (VStr (py_strip s))
+    | _ => Stuck "str.strip: only without arguments"
     end
   else Stuck "unknown str method".
 
@@ -425,6 +474,7 @@ Inductive expr :=
 | EGetattr (e : expr) (a : string) (d : option expr)  (* getattr(e, "a") / getattr(e, "a", d) *)
 | EFString (parts : list expr)       (* f"..{e}.." without conversions / format specs; parts must be str *)
 | EProp (e : expr) (name : string)   (* e.name where name is a translated @property of e's class *)
+| EDict (items : list (expr * expr))                     (* {k: v, ..} *)
 | EClosure (q : list string) (captured : list string).
     (* the function object of a nested `def`, lambda-lifted to the translated function q whose
        leading parameters are the captured variables *)
@@ -457,7 +507,17 @@ Inductive stmt :=
     (* [target =] [await] self.field.m(..) where self.field is outside the translated code: recorded *)
 | SCallbackEffect (f a k : expr)                                (* f( *a, **k ) as a statement, f a callable from outside: recorded *)
 | SReturnState (e : option expr)                                (* `return e` in a method whose run yields (value, self) *)
-| SSuspend (x : string).                                        (* the coroutine suspends in `x = await ..`: yields (Suspended x, self) *)
+| SSuspend (x : string)                                         (* the coroutine suspends in `x = await ..`: yields (Suspended x, self) *)
+| SFor (x : string) (iter : expr) (body : list stmt)            (* for x in <list / tuple> *)
+| SSelfItemDel (field : string) (key : expr)                    (* del self.field[key]: KeyError when absent *)
+| SSelfItemCall (field : string) (key : expr) (m : string) (args : list expr)
+    (* self.field[key].m(..) as a statement, m a procedure of the item's class: the item is replaced by
+       what the call leaves; KeyError when absent *)
+| SSelfItemSetAttr (field : string) (key : expr) (a : string) (value : expr)
+| SGlobalEffect (target : option string) (g : string) (args : list expr).
+    (* [target =] g(..) where g is a function outside the translation that changes its arguments (objects
+       with identity): recorded in self."$log" like SSelfEffect *)
+    (* self.field[key].a = value; KeyError when absent *)
 
 (* KProcedure: a method that never returns a value (Python: None) and may assign attributes of self;
    here a call of it yields the self it leaves (values are immutable), and it is only ever called as
@@ -492,6 +552,19 @@ Definition ctor_check (cls : string) (fields : list (string * val)) : res val :=
     end
   else Ok (VObj cls fields).
 
+(* defaults of the record constructors (a field without one is required) *)
+Definition ctor_default (cls f : string) : option val :=
+  if String.eqb cls "TextDocument" then
+    (* TextDocument(uri, source=None, version=None, language_id=None, local=True,
+                    sync_kind=TextDocumentSyncKind.Incremental, position_codec=None): the record of the
+       constructor's arguments (what TextDocument.__init__ makes of them is text_document.py's) *)
+    if String.eqb f "source" || String.eqb f "version" || String.eqb f "language_id" || String.eqb f "position_codec"
+    then Some VNone
+    else if String.eqb f "local" then Some (VBool true)
+    else if String.eqb f "sync_kind" then Some (VGlobal ["TextDocumentSyncKind"; "Incremental"])
+    else None
+  else None.
+
 Definition construct (cls : string) (fields : list string) (args : list val) (kw : list (string * val))
   : res val :=
   (fix go (fs : list string) (args : list val) (acc : list (string * val)) : res val :=
@@ -506,7 +579,10 @@ Definition construct (cls : string) (fields : list string) (args : list val) (kw
        | a :: args' => if mem_str f (map fst kw) then Raise TypeError else go fs' args' ((f, a) :: acc)
        | [] => match get f kw with
                | Some a => go fs' [] ((f, a) :: acc)
-               | None => Raise TypeError
+               | None => match ctor_default cls f with
+                         | Some a => go fs' [] ((f, a) :: acc)
+                         | None => Raise TypeError
+                         end
                end
        end
      end) fields args [].
@@ -569,6 +645,9 @@ Definition global_method (p : list string) (args : list val) : option (res val) 
           | [VStr s] => Ok (VList (map VStr (re_end_word_findall s)))
           | _ => Stuck "RE_END_WORD.findall"
           end)
+  else if path_eqb p ["copy"; "deepcopy"] then
+    (* values are immutable here: a deep copy is the value itself *)
+    Some (match args with [v] => Ok v | _ => Stuck "copy.deepcopy" end)
   else if path_eqb p ["io"; "StringIO"] then
     (* an empty text buffer; it is written to by the statement SMutCall only *)
     Some (match args with [] => Ok (VObj "StringIO" [("buf", VStr [])]) | _ => Stuck "io.StringIO with an argument" end)
@@ -583,6 +662,18 @@ Definition obj_method (cls m : string) (fields : list (string * val)) (args : li
     if String.eqb m "getvalue" then
       Some (match args, get "buf" fields with [], Some b => Ok b | _, _ => Stuck "StringIO.getvalue" end)
     else Some (Stuck "StringIO method in an expression")
+  else if String.eqb cls "dict" then
+    if String.eqb m "get" then
+      Some (match args, fields with
+            | [k], [(f, VList items)] =>
+              if String.eqb f "items" then Ok (match dict_get k items with Some v => v | None => VNone end)
+              else Stuck "dict.get"
+            | [k; d], [(f, VList items)] =>
+              if String.eqb f "items" then Ok (match dict_get k items with Some v => v | None => d end)
+              else Stuck "dict.get"
+            | _, _ => Stuck "dict.get"
+            end)
+    else Some (Stuck "dict method in an expression")
   else None.
 
 (* ... and the ones that change the object (statement SMutCall: the local is rebound) *)
@@ -598,6 +689,11 @@ Definition obj_mutator (m : string) (v : val) (args : list val) : res val :=
       match args, dict_items v with
       | [k; d], Some items => Ok (mk_dict (if dict_mem k items then items else dict_set k d items))
       | _, _ => Stuck "dict.setdefault"
+      end
+    else if String.eqb cls "dict" && String.eqb m "pop" then
+      match args, dict_items v with
+      | [k; _], Some items => Ok (mk_dict (dict_del k items))     (* with a default: never raises *)
+      | _, _ => Stuck "dict.pop: only with a default"
       end
     else Stuck "unknown mutating method"
   | _ => Stuck "mutating method on this value"
@@ -788,16 +884,41 @@ Fixpoint eval (env : envT) (e : expr) {struct e} : res val :=
        match es with
        | [] => Ok (VStr [])
        | e :: r =>
-         match eval env e with
-         | Ok (VStr s) => match go r with
-                          | Ok (VStr t) => Ok (VStr (s ++ t)%list)
-                          | Ok _ => Stuck "f-string"
+         (* the text of this part: a str as it is; format(v) of anything else is outside the translation
+            (an oracle that must return a str) *)
+         match (match eval env e with
+                | Ok (VStr s) => Ok s
+                | Ok v => match call ["format"] None [v] [] with
+                          | Ok (VStr s) => Ok s
+                          | Ok _ => Stuck "format() that does not return a str"
                           | Raise k => Raise k | Stuck w => Stuck w
                           end
-         | Ok _ => Stuck "f-string part that is not a str"
+                | Raise k => Raise k | Stuck w => Stuck w
+                end) with
+         | Ok s => match go r with
+                   | Ok (VStr t) => Ok (VStr (s ++ t)%list)
+                   | Ok _ => Stuck "f-string"
+                   | Raise k => Raise k | Stuck w => Stuck w
+                   end
          | Raise k => Raise k | Stuck w => Stuck w
          end
        end) parts
+  | EDict items =>
+    match (fix go (es : list (expr * expr)) (acc : list val) : res (list val) :=
+             match es with
+             | [] => Ok acc
+             | (ke, ve) :: r =>
+               match eval env ke with
+               | Ok kv => match eval env ve with
+                          | Ok vv => go r (dict_set kv vv acc)
+                          | Raise k => Raise k | Stuck w => Stuck w
+                          end
+               | Raise k => Raise k | Stuck w => Stuck w
+               end
+             end) items [] with
+    | Ok l => Ok (mk_dict l)
+    | Raise k => Raise k | Stuck w => Stuck w
+    end
   | EClosure q captured =>
     match (fix go (xs : list string) : option (list (string * val)) :=
              match xs with
@@ -867,6 +988,19 @@ Fixpoint while_loop (cond : envT -> res val) (body : envT -> outcome) (n : nat) 
     end
   end.
 
+(* `for x in l` *)
+Fixpoint for_each (body : envT -> outcome) (x : string) (l : list val) (env : envT) : outcome :=
+  match l with
+  | [] => ONormal env
+  | v :: r =>
+    match body (set x v env) with
+    | ONormal env' => for_each body x r env'
+    | OContinue env' => for_each body x r env'
+    | OBreak env' => ONormal env'
+    | o => o
+    end
+  end.
+
 (* `for xi, xv in enumerate(l)`: no fuel, the list is finite *)
 Fixpoint for_enum (body : envT -> outcome) (xi xv : string) (l : list val) (idx : Z) (env : envT) : outcome :=
   match l with
@@ -886,6 +1020,8 @@ Fixpoint exn_in (k : exn) (ks : list exn) : bool :=
   | k' :: r => match k, k' with
                | IndexError, IndexError | TypeError, TypeError | ValueError, ValueError
                | AttributeError, AttributeError | KeyError, KeyError | ExcOther, ExcOther => true
+               | _, ExcAny => true
+               | ExcUser a, ExcUser b => if String.eqb a b then true else exn_in k r
                | _, _ => exn_in k r
                end
   end.
@@ -919,16 +1055,8 @@ Definition log_effect (sv : val) (entry : val) : res (val * val) :=
   | _ => Stuck "no effect log"
   end.
 
-Section Exec.
-Variable fuel : nat.        (* bound on the iterations of each `while` *)
-
-Fixpoint exec (env : envT) (s : stmt) {struct s} : outcome :=
-  let block :=
-    fix block (env : envT) (ss : list stmt) {struct ss} : outcome :=
-      match ss with
-      | [] => ONormal env
-      | s :: r => match exec env s with ONormal env' => block env' r | o => o end
-      end in
+(* the statements without sub-statements (kept apart so that unfolding `exec` stays small) *)
+Definition exec_atomic (env : envT) (s : stmt) : outcome :=
   match s with
   | SAssign x e =>
     match eval env e with
@@ -964,12 +1092,6 @@ Fixpoint exec (env : envT) (s : stmt) {struct s} : outcome :=
     | Ok _ => OStuck "unpacking a non-tuple"
     | Raise k => ORaise k env | Stuck w => OStuck w
     end
-  | SIf c a b =>
-    match eval env c with
-    | Ok v => if truthy v then block env a else block env b
-    | Raise k => ORaise k env | Stuck w => OStuck w
-    end
-  | SWhile c body => while_loop (fun env => eval env c) (fun env => block env body) fuel env
   | SReturn None => OReturn VNone
   | SReturn (Some e) =>
     match eval env e with
@@ -1190,6 +1312,139 @@ Fixpoint exec (env : envT) (s : stmt) {struct s} : outcome :=
     | Some v, Some sv => OReturn (VTuple [VObj "Suspended" [("on", v)]; sv])
     | _, _ => OStuck "suspend"
     end
+  | SSelfItemDel field key =>
+    match eval env key with
+    | Ok kv =>
+      match get "self" env with
+      | Some (VObj cls fields) =>
+        match get field fields with
+        | Some d => match dict_items d with
+                    | Some items =>
+                      if dict_mem kv items
+                      then ONormal (set "self" (VObj cls (set_field field (mk_dict (dict_del kv items)) fields)) env)
+                      else ORaise KeyError env
+                    | None => OStuck "item deletion on a non-dict"
+                    end
+        | None => ORaise AttributeError env
+        end
+      | _ => OStuck "del self.field[k] without an instance"
+      end
+    | Raise k => ORaise k env | Stuck w => OStuck w
+    end
+  | SSelfItemCall field key m args =>
+    match eval env key with
+    | Ok kv =>
+      match (fix go (es : list expr) : res (list val) :=
+               match es with
+               | [] => Ok []
+               | e :: r => match eval env e with
+                           | Ok v => match go r with Ok vs => Ok (v :: vs) | Raise k => Raise k | Stuck w => Stuck w end
+                           | Raise k => Raise k | Stuck w => Stuck w
+                           end
+               end) args with
+      | Ok vs =>
+        match get "self" env with
+        | Some (VObj cls fields) =>
+          match get field fields with
+          | Some d =>
+            match dict_items d with
+            | Some items =>
+              match dict_get kv items with
+              | Some (VObj icls ifields) =>
+                match call [icls; m] (Some (VObj icls ifields)) vs [] with
+                | Ok item' =>
+                  ONormal (set "self" (VObj cls (set_field field (mk_dict (dict_set kv item' items)) fields)) env)
+                | Raise k => ORaise k env | Stuck w => OStuck w
+                end
+              | Some _ => OStuck "method call on an item that is not an instance"
+              | None => ORaise KeyError env
+              end
+            | None => OStuck "item access on a non-dict"
+            end
+          | None => ORaise AttributeError env
+          end
+        | _ => OStuck "self.field[k].m(..) without an instance"
+        end
+      | Raise k => ORaise k env | Stuck w => OStuck w
+      end
+    | Raise k => ORaise k env | Stuck w => OStuck w
+    end
+  | SSelfItemSetAttr field key a value =>
+    match eval env key with
+    | Ok kv =>
+      match eval env value with
+      | Ok vv =>
+        match get "self" env with
+        | Some (VObj cls fields) =>
+          match get field fields with
+          | Some d =>
+            match dict_items d with
+            | Some items =>
+              match dict_get kv items with
+              | Some (VObj icls ifields) =>
+                ONormal (set "self" (VObj cls (set_field field
+                           (mk_dict (dict_set kv (VObj icls (set_field a vv ifields)) items)) fields)) env)
+              | Some _ => OStuck "attribute assignment on an item that is not an instance"
+              | None => ORaise KeyError env
+              end
+            | None => OStuck "item access on a non-dict"
+            end
+          | None => ORaise AttributeError env
+          end
+        | _ => OStuck "self.field[k].a = v without an instance"
+        end
+      | Raise k => ORaise k env | Stuck w => OStuck w
+      end
+    | Raise k => ORaise k env | Stuck w => OStuck w
+    end
+  | SGlobalEffect target g args =>
+    match (fix go (es : list expr) : res (list val) :=
+             match es with
+             | [] => Ok []
+             | e :: r => match eval env e with
+                         | Ok v => match go r with Ok vs => Ok (v :: vs) | Raise k => Raise k | Stuck w => Stuck w end
+                         | Raise k => Raise k | Stuck w => Stuck w
+                         end
+             end) args with
+    | Ok vs =>
+      match get "self" env with
+      | Some sv =>
+        match log_effect sv (VTuple [VGlobal [g]; VList vs]) with
+        | Ok (r, sv') =>
+          ONormal (match target with Some x => set x r (set "self" sv' env) | None => set "self" sv' env end)
+        | Raise k => ORaise k env | Stuck w => OStuck w
+        end
+      | None => OStuck "recorded call without self"
+      end
+    | Raise k => ORaise k env | Stuck w => OStuck w
+    end
+  | _ => OStuck "not an atomic statement"
+  end.
+
+Section Exec.
+Variable fuel : nat.        (* bound on the iterations of each `while` *)
+
+Fixpoint exec (env : envT) (s : stmt) {struct s} : outcome :=
+  let block :=
+    fix block (env : envT) (ss : list stmt) {struct ss} : outcome :=
+      match ss with
+      | [] => ONormal env
+      | s :: r => match exec env s with ONormal env' => block env' r | o => o end
+      end in
+  match s with
+  | SIf c a b =>
+    match eval env c with
+    | Ok v => if truthy v then block env a else block env b
+    | Raise k => ORaise k env | Stuck w => OStuck w
+    end
+  | SWhile c body => while_loop (fun env => eval env c) (fun env => block env body) fuel env
+  | SFor x iter body =>
+    match eval env iter with
+    | Ok (VList l) => for_each (fun env => block env body) x l env
+    | Ok (VTuple l) => for_each (fun env => block env body) x l env
+    | Ok _ => OStuck "for over a non-list"
+    | Raise k => ORaise k env | Stuck w => OStuck w
+    end
   | SForEnum xi xv iter body =>
     match eval env iter with
     | Ok (VList l) => for_enum (fun env => block env body) xi xv l 0 env
@@ -1206,6 +1461,7 @@ Fixpoint exec (env : envT) (s : stmt) {struct s} : outcome :=
          end) handlers
     | o => o
     end
+  | _ => exec_atomic env s
   end.
 
 Definition exec_block : envT -> list stmt -> outcome :=
